@@ -170,7 +170,7 @@ class Run(object):
         if k["jr"]:
             d["jsonrpc"] = "2.0"
         if not k["notif"]:
-            d["id"] = h
+            d["id"] = {"__jsonclass__": ["decimal.Decimal", [str(h)]]} if k.get("bean") else h
         elif not k["jr"]:
             d["id"] = None               # a 1.0 notification needs the id member (null) to be a request at all
         d["method"] = "ok_%d" % h if k["valid"] else 5
@@ -362,6 +362,15 @@ if __name__ == "__main__":
     # notification pools started late (with a backlog larger / smaller than the pool), then further notifications
     late = [(nb, mw, dk) for nb in (1, 3, 5) for mw in (1, 2) for dk in ("default", "custom")]
     late_traces = [run_late("2", nb, mw, dk, 2, rnd) for (nb, mw, dk) in late[part::nparts]]
+    # requests whose id is a bean: the reply cannot be converted to JSON and the fall-back error is sent - in the form of
+    # ITS request, whatever another thread is serving meanwhile (conformance instance has no such path: DConcObs only)
+    bean = {"jr": True, "notif": False, "valid": True, "bean": True}
+    bean1 = {"jr": False, "notif": False, "valid": True, "bean": True}
+    others = [{"jr": False, "notif": False, "valid": True}, {"jr": True, "notif": False, "valid": True}, {"jr": False, "notif": True, "valid": True}]
+    pairs = [("2", [b, o]) for b in (bean, bean1) for o in others] + [("2", [o, b]) for b in (bean, bean1) for o in others] + [("1", [bean, others[0]])]
+    for (sv, kinds) in pairs[part::nparts]:
+        late_traces += explore(sv, kinds, 0, bound, maxruns, rnd)
+        late_traces += explore(sv, kinds, 0, bound, maxruns, rnd, policy="high")
     json.dump(late_traces, open(out + ".late", "w"))      # more handlers than the conformance instance has: judged by DConcObs only
     # three handlers, random schedules
     for _ in range(20 if tier == "quick" else 300):
